@@ -89,8 +89,10 @@ func (t *FnTrans) instr(b *ssa.BasicBlock, idx int, in ssa.Instruction, st *Heap
 	case *ssa.Slice:
 		t.sliceInstr(x, st, reach)
 	case *ssa.MakeSlice:
+		t.siteHook("call", x, b, idx, st, reach)
 		t.makeSlice(x, st, reach)
 	case *ssa.MakeMap:
+		t.siteHook("call", x, b, idx, st, reach)
 		t.makeMap(x, st, reach)
 	case *ssa.MapUpdate:
 		t.mapUpdate(x, st, reach, b, idx)
